@@ -140,3 +140,8 @@ def oracle(lines, impl):
                 continue
             break
     return fails
+
+# --- source tie, in-place mutation / nested loops / decision trees (tools/rs2lean.py mut=True: regenerated from /repo/src into
+# Generated/SrcC12.lean and proved equal to the hand model in Props/SrcTieC12.lean)
+from . import srctie
+srctie.wire(globals(), 'C12')
